@@ -47,6 +47,7 @@ ASSUMPTIONS = {
     "A8": "extraction drops docstrings, annotations, __repr__ and warnings.warn(...) statements, identically on every run",
     "A9": "abstract-bytes mode (lru_trie.py level): byte strings are an uninterpreted sort with concatenation and length; only the laws listed in pyvc/smt.py:_abstract_bytes_axioms are used",
     "A10": "lru_iter(lru) yields the stems of lru (trusted sequence contract, bounded-checked): lru_trie.py is verified over the abstract stem sequence",
+    "A12": "NEAR(a) (nearest webentity at or above a head) is a spec function of the current store defined by well-founded recursion on the parent pointer (parent[a] < a, invariant I2); its unfolding equation is assumed",
     "A11": "tail blocks appended by LRUTrieNode.write land beyond the old end of the store, where no premise constrains the arrays: modelled as already present (contracts/node.py Write.apply)",
 }
 
@@ -86,8 +87,8 @@ def deductive(prop, tier):
         tasks.append((groups, fn, mode, shards, only))
     if not tasks:
         return {}
-    timeout = 10000 if tier == "quick" else 30000
-    return run_tasks(tasks, REPO, timeout_ms=timeout, procs=int(os.environ.get("VERIF_PROCS", "16")), max_fail=6 if tier == "quick" else 40)
+    timeout = 10000 if tier == "quick" else 20000
+    return run_tasks(tasks, REPO, timeout_ms=timeout, procs=int(os.environ.get("VERIF_PROCS", "16")), max_fail=6 if tier == "quick" else 20)
 
 
 def dep_hashes(res):
@@ -140,6 +141,10 @@ def static_part(prop):
             obs += eff.fr_state()
         elif fam == "FR-ID":
             obs += eff.fr_id()
+        elif fam == "SK-PAIR":
+            from static import skeleton
+
+            obs += skeleton.check(prog)
         elif fam.startswith("PRE-STUB"):
             from static.prestub import PreStub
 
@@ -242,6 +247,9 @@ def run_property(prop, tier, seed):
     # 2. static contracts
     sobs = static_part(prop)
     for o in sobs:
+        if o.get("undecided"):
+            undecided.append({"function": "static", "obligation": o["id"], "reason": o["undecided"]})
+            continue
         n_ob += 1
         if o["ok"]:
             n_ok += 1
